@@ -24,6 +24,23 @@ def runCalls (patience : Nat) (delta : Rat) (mon : Monitor) (m0 : Option Nat) (s
       (b, s'.bestModel) :: go s' (m + 1) rest
   go (PState.init m0) start calls
 
+def jOptRat : Option Rat → Json
+  | none => Json.null
+  | some q => jRat q
+
+/-- the epoch loop of `train` over exactly the given monitored losses (at most `losses.length`
+epochs), from condition state `s0`: (stopped?, epoch reached, state of the object afterwards).
+The stop epoch comes from `pLoop`, the state from `pRun` on the calls made up to that epoch. -/
+def loopOn (patience : Nat) (delta : Rat) (s0 : PState Rat) (losses : List Rat) :
+    Bool × Nat × PState Rat :=
+  let last := losses.getLastD 0
+  match pLoop patience delta (fun n => losses.getD n last) (losses.length + 1) s0 0 with
+  | some (e, _) => (true, e, (pRun patience delta s0 0 (none :: (losses.take e).map some)).1)
+  | none => (false, losses.length, (pRun patience delta s0 0 (none :: losses.map some)).1)
+
+def jLoop (stopped : Bool) (e : Nat) (bm : Option Nat) : Json :=
+  Json.mkObj [("stopped", jBool stopped), ("epoch", jNat e), ("best", jOptNat bm)]
+
 def handle (op : String) (j : Json) : R Json := do
   match op with
   | "c19.run" =>
@@ -62,6 +79,37 @@ def handle (op : String) (j : Json) : R Json := do
     match trainLoopP patience delta (fun n => losses.getD n last) fuel with
     | none => pure (Json.mkObj [("stopped", jBool false)])
     | some (e, bm) => pure (Json.mkObj [("stopped", jBool true), ("epoch", jNat e), ("best", jOptNat bm)])
+  | "c19.reused" =>
+    -- ONE condition object through two consecutive `train` loops
+    let patience ← natF j "patience"
+    let delta ← field j "delta" >>= asRat
+    let first ← listF asRat j "first"
+    let second ← listF asRat j "second"
+    -- first call: fresh object, `best_model = model`
+    let (st1, e1, stale) := loopOn patience delta (PState.init (some 0)) first
+    -- second call on the same object: `trainLoopReused` from the stale state
+    let last := second.getLastD 0
+    let lossfn := fun n => second.getD n last
+    let (st2, e2, s2) := loopOn patience delta { stale with bestModel := some 0 } second
+    let direct := trainLoopReused patience delta lossfn (second.length + 1) stale
+    let keep := pLoopKeep patience delta lossfn (second.length + 1)
+      { stale with bestModel := stale.bestModel.map (· + 100) }
+    -- declarative spec: first epoch n ≥ 1 with staleSince > patience, model staleModel
+    let hs := (List.range second.length).map (fun i => (second.take (i + 1)).reverse)
+    let spec := match hs.find? (fun h => decide (staleSince delta stale.best stale.since h > patience)) with
+      | some h => jLoop true h.length (some (staleModel delta stale.best h))
+      | none => jLoop false second.length (some (staleModel delta stale.best second.reverse))
+    pure (Json.mkObj [
+      ("first", jLoop st1 e1 stale.bestModel),
+      ("stale", Json.mkObj [("best", jOptRat stale.best), ("since", jNat stale.since)]),
+      ("second", jLoop st2 e2 s2.bestModel),
+      ("direct", match direct with
+        | some (e, bm) => jLoop true e bm
+        | none => Json.mkObj [("stopped", jBool false)]),
+      ("keep", match keep with
+        | some (e, bm) => jLoop true e bm
+        | none => Json.mkObj [("stopped", jBool false)]),
+      ("spec", spec)])
   | "c19.epoch" =>
     let epochs ← natF j "epochs"
     let calls ← listF asNat j "calls"
